@@ -185,7 +185,8 @@ def apply_directive(fs, d, tmpl_name):
     elif kw == "from_closure":
         # from_closure <let-variable> :: <new fn name> :: <state var>: <state param type> :: <Self type> :: <return type>
         f = [x.strip() for x in rest.split(" :: ")]
-        fs.from_closure = {"var": f[0], "fn": f[1], "state": f[2], "selfty": f[3], "ret": f[4]}
+        fs.from_closure = {"var": f[0], "fn": f[1], "state": f[2], "selfty": f[3], "ret": f[4],
+                           "captures": [x.strip() for x in f[5].split(",")] if len(f) > 5 and f[5].strip() else []}
     elif kw in ("requires", "ensures", "decreases"):
         e, t = split_tag(rest)
         getattr(fs, kw).append((e, t))
@@ -202,6 +203,8 @@ def apply_directive(fs, d, tmpl_name):
     elif kw == "nested":
         pos, kws = parse_fields(rest)
         kws["ret"] = pos[1] if len(pos) > 1 else "r"
+        if len(pos) > 2 and pos[2].startswith("assumed"):
+            kws["assumed"] = pos[2][len("assumed"):].strip() or "[A-repo-nested]"
         fs.nested[pos[0]] = kws
     elif kw in ("before", "after"):
         m2 = re.match(r'"((?:[^"\\]|\\.)*)"\s*(?:nth=(\d+)\s*)?::\s*(.*)$', rest, re.S)
@@ -760,6 +763,10 @@ def instantiate_fn(fs, item, em):
                 continue
             sub = parse_fn(text[toks[nk].start:], nname)
             off = toks[nk].start
+            assumed = spec.get("assumed")
+            if assumed:
+                # the nested fn is left unverified (external_body): its contract is an ASSUMPTION, not an obligation
+                edits.append((off, off, "#[verifier::external_body] /* ASSUMED %s */ " % assumed))
             if spec.get("ret", "r") != "-" and sub.ret_start is not None:
                 edits.append((off + sub.ret_start, off + sub.ret_end,
                               "(%s: %s)" % (spec["ret"], text[off + sub.ret_start:off + sub.ret_end])))
@@ -769,6 +776,9 @@ def instantiate_fn(fs, item, em):
                     ntxt.append(kind)
                     for ci, cexpr in enumerate(split_top(spec[kind]), 1):
                         obid = "%s#%s.%s%d" % (fnkey, nname, kind[:3], ci)
+                        if assumed:
+                            ntxt.append("    %s," % cexpr)
+                            continue
                         ntxt.append("    %s,  /*@ob %s*/" % (cexpr, obid))
                         em._pending.append({"id": obid, "kind": "nested-" + kind, "fn": fnkey, "tags": [t for t in fs.tags if t != "C16"],
                                             "text": cexpr, "marker": obid})
@@ -1108,7 +1118,7 @@ def instantiate_fn(fs, item, em):
                             body_hint = kws.get("body", "")   # reused field: proof text placed at loop body start
                             rep = ("{ let mut __v: Vec<%s> = Vec::new(); for __x in %s: %s.iter()\n" % (ety, it, recv) +
                                    "\n".join("                " + x for x in inv) +
-                                   "\n            { %s __v.push(%s(__x.clone())?); } __v }" % (body_hint, fexpr))
+                                   "\n            { %s __v.push(%s(__x.clone())?); } %s __v }" % (body_hint, fexpr, kws.get("post", "")))
                             edits.append((toks[r].start, endtok.end, rep))
                             log.append("R-collect-result: `%s.iter().cloned().map(%s).collect::<Result<Vec<_>,_>>()?` rewritten to a loop that pushes `%s(x.clone())?` (line %d)" % (
                                 recv, fexpr, fexpr, item.line0 + text.count("\n", 0, toks[k].start)))
@@ -1224,7 +1234,8 @@ def instantiate_fn(fs, item, em):
                     init = text[op + 1:q]
                     edits.append((m1.start(), q + 1, "let mut %s: %s = %s" % (st, sty, init)))
                     c = cl[0]
-                    edits.append((toks[c["bar1"]].start, toks[c["body_end"]].end, sname))
+                    caps = [x.strip() for x in pos[4].split(",")] if len(pos) > 4 and pos[4].strip() and not pos[4].startswith("R-") else []
+                    edits.append((toks[c["bar1"]].start, toks[c["body_end"]].end, sname + (" { %s }" % ", ".join(caps) if caps else "")))
                     edits.append((m3.end() - 1, m3.end() - 1, ", &mut %s" % st))
                     edits.append((m4.start(), m4.end(), st))
                     log.append("R-refcell-visitor: RefCell state `%s` threaded as `&mut %s`; visitor closure `%s` replaced by struct %s (static dispatch instead of `dyn Fn`)" % (st, sty, var, sname))
@@ -1312,7 +1323,13 @@ def closure_as_fn(fs, item):
     bo, bc = pick["body_start"], pick["body_end"]
     body = text[toks[bo].start:toks[bc].end]
     st_name = spec["state"].split(":")[0].strip()
+    # `let mut S = S.borrow_mut();` (a named RefMut guard) disappears: later uses of S mean the `&mut` parameter itself
+    body, n_guard = re.subn(r"let\s+(?:mut\s+)?%s\s*=\s*%s\s*\.\s*borrow_mut\s*\(\s*\)\s*;" % (re.escape(st_name), re.escape(st_name)), "", body)
     body2, n = re.subn(r"\b%s\s*\.\s*borrow_mut\s*\(\s*\)" % re.escape(st_name), st_name, body)
+    n += n_guard
+    # captured (by copy) variables become fields of the visitor value
+    for cap in spec.get("captures", []):
+        body2 = re.sub(r"(?<![\.\w])%s\b" % re.escape(cap), "self." + cap, body2)
     other = re.findall(r"\b(\w+)\s*\.\s*borrow(?:_mut)?\s*\(", body2)
     if other:
         raise GenError("%s: closure `%s` borrows other cells %s" % (fs.key, spec["var"], other))
